@@ -145,7 +145,64 @@ pub enum Outcome<R> {
 
 type Job = Box<dyn FnOnce() -> Box<dyn Any + Send> + Send>;
 
+/// OS thread id of the calling thread (Linux: /proc/thread-self -> "<pid>/task/<tid>")
+fn current_tid() -> Option<u64> {
+    let l = std::fs::read_link("/proc/thread-self").ok()?;
+    l.file_name()?.to_str()?.parse().ok()
+}
+
+/// (state, user+system cpu ticks) of one thread of this process
+fn thread_stat(tid: u64) -> Option<(char, u64)> {
+    let s = std::fs::read_to_string(format!("/proc/self/task/{}/stat", tid)).ok()?;
+    // "<tid> (<comm>) <state> ..." - comm may contain spaces/parentheses: split at the LAST ')'
+    let rest = &s[s.rfind(')')? + 1..];
+    let f: Vec<&str> = rest.split_whitespace().collect();
+    let state = f.first()?.chars().next()?;
+    let utime: u64 = f.get(11)?.parse().ok()?;
+    let stime: u64 = f.get(12)?.parse().ok()?;
+    Some((state, utime + stime))
+}
+
+/// A stale heartbeat is only a hang if the executor's threads are really blocked: every one of them sleeping
+/// and none of them consuming CPU over the confirmation window. On a heavily loaded machine a starved but
+/// runnable task (state R, or CPU time advancing) is slow, not hung.
+fn confirmed_blocked(tids: &[u64]) -> bool {
+    if tids.is_empty() {
+        return true;
+    }
+    let sample = |tids: &[u64]| -> Option<(bool, u64)> {
+        let mut all_sleeping = true;
+        let mut cpu = 0u64;
+        for t in tids {
+            let (st, c) = thread_stat(*t)?;
+            if st != 'S' {
+                all_sleeping = false;
+            }
+            cpu += c;
+        }
+        Some((all_sleeping, cpu))
+    };
+    let Some((s0, c0)) = sample(tids) else { return true };
+    if std::env::var("MV_WD_DEBUG").is_ok() {
+        let st: Vec<String> = tids.iter().map(|t| format!("{}:{:?}", t, thread_stat(*t))).collect();
+        eprintln!("watchdog sample: {}", st.join(" "));
+    }
+    if !s0 {
+        return false;
+    }
+    for _ in 0..4 {
+        std::thread::sleep(Duration::from_millis(250));
+        match sample(tids) {
+            Some((true, c)) if c == c0 => {}
+            Some(_) => return false,
+            None => return true,
+        }
+    }
+    true
+}
+
 pub struct Exec {
+    tids: Arc<Mutex<Vec<u64>>>,
     tx: Sender<Job>,
     rx: Receiver<Result<Box<dyn Any + Send>, String>>,
     prog: Arc<Prog>,
@@ -164,14 +221,24 @@ impl Exec {
             stamp: AtomicU64::new(now_ms()),
         });
         let p2 = prog.clone();
+        let tids: Arc<Mutex<Vec<u64>>> = Arc::new(Mutex::new(vec![]));
+        let (t2, t3) = (tids.clone(), tids.clone());
         std::thread::Builder::new()
             .stack_size(64 << 20)
             .spawn(move || {
+                if let Some(t) = current_tid() {
+                    t2.lock().unwrap().push(t);
+                }
                 let pool = if pool_size > 0 {
                     Some(
                         rayon::ThreadPoolBuilder::new()
                             .num_threads(pool_size)
                             .stack_size(64 << 20)
+                            .start_handler(move |_| {
+                                if let Some(t) = current_tid() {
+                                    t3.lock().unwrap().push(t);
+                                }
+                            })
                             .build()
                             .unwrap(),
                     )
@@ -201,6 +268,7 @@ impl Exec {
             .and_then(|s| s.parse().ok())
             .unwrap_or(10u64);
         Exec {
+            tids,
             tx,
             rx,
             prog,
@@ -221,7 +289,15 @@ impl Exec {
                 Ok(Err(msg)) => return Outcome::Panic(msg),
                 Err(RecvTimeoutError::Timeout) => {
                     let last = self.prog.stamp.load(Ordering::SeqCst);
-                    if now_ms().saturating_sub(last) > self.watchdog.as_millis() as u64 {
+                    let stale = now_ms().saturating_sub(last);
+                    if stale > self.watchdog.as_millis() as u64 {
+                        // confirm with the operating system that the executor's threads are blocked (not merely
+                        // starved); a busy task is given up to 30 watchdog periods before it is called hung
+                        let tids = self.tids.lock().unwrap().clone();
+                        let complete = self.pool_size > 0 && tids.len() == self.pool_size + 1;
+                        if complete && stale < 30 * self.watchdog.as_millis() as u64 && !confirmed_blocked(&tids) {
+                            continue;
+                        }
                         let label = self.prog.label.lock().unwrap().clone();
                         let ctx = self.prog.ctx.lock().unwrap().clone();
                         // abandon this executor
